@@ -86,6 +86,11 @@ func (f *fragReader) Read(p []byte) (int, error) {
 	n := 1 + verifrt.Choose(min(f.max, min(len(p), len(f.data))))
 	copy(p, f.data[:n])
 	f.data = f.data[n:]
+	if len(f.data) == 0 && verifrt.Choose(2) == 1 {
+		// the io.Reader contract allows the last bytes to arrive together with io.EOF
+		verifrt.Reach("eof-with-data")
+		return n, io.EOF
+	}
 	return n, nil
 }
 
